@@ -1374,6 +1374,8 @@ class Oracle(object):
 
     S1 (reachable): every object reached from a font by walking the child lists reports exactly the
         containers on the walk, and the font's dispatcher.
+    S1b: the sub-objects a font always has (info, kerning, groups, features, image set, data set), once built,
+        answer the font.
     S2 (removed): an object that was listed in a container before an operation and is not listed in it
         after it has been removed/replaced; while it is listed nowhere its accessors return nothing.
     S2b (taken along): an object that is not reachable from any font names no layer, layer set, font, dispatcher.
@@ -1475,6 +1477,19 @@ class Oracle(object):
                 self.report("wrong-parent", "%s.getParent/after-%s" % (kind, k), obj=n, expected=want, observed=acc[4])
             if acc[5] != ctx.get("font"):
                 self.report("wrong-dispatcher", "%s/after-%s" % (kind, k), obj=n, expected=ctx.get("font"), observed=acc[5])
+        # S1b: the font's fixed sub-objects (only those already built; nothing is built by looking)
+        for f in w.fonts:
+            font = w.objs[f]
+            for attr in ("_info", "_kerning", "_groups", "_features", "_images", "_data"):
+                sub = getattr(font, attr, None)
+                if sub is None:
+                    continue
+                if sub.font is not font or sub.getParent() is not font or sub.dispatcher is not font.dispatcher:
+                    self.report("wrong-parent", "font.%s/after-%s" % (attr, k), obj=f)
+            for la in font.layers:
+                ud = la._unicodeData
+                if ud is not None and (ud.layer is not la or ud.font is not font or ud.dispatcher is not font.dispatcher):
+                    self.report("wrong-parent", "layer.unicodeData/after-%s" % k, obj=f)
         # S2 --------------------------------------------------------------------------------
         for x in sorted(self.removed):
             if x in listed:
